@@ -38,7 +38,7 @@ run_case() {  # name patch expect(static) expect(probe)
   local verdict=ok
   { [ "$got_static" = "$want_static" ] && [ "$got_probe" = "$want_probe" ]; } || { verdict=UNEXPECTED; bad=1; }
   printf '%-62s static=%-7s probe=%-7s audit_exit=%s %s %s\n' "$name" "$got_static" "$got_probe" "$rc" "${steps:+[$steps]}" "$verdict"
-  git -C "$WT/wt" checkout -- . >/dev/null 2>&1
+  git -C "$WT/wt" checkout -- . >/dev/null 2>&1; git -C "$WT/wt" clean -fdq -- src >/dev/null 2>&1
 }
 
 run_case "unpatched HEAD" "" hold hold
